@@ -11,6 +11,7 @@ import (
 
 	"github.com/DataDog/sketches-go/ddsketch"
 	"github.com/DataDog/sketches-go/ddsketch/mapping"
+	"github.com/DataDog/sketches-go/ddsketch/stat"
 	"github.com/DataDog/sketches-go/ddsketch/store"
 )
 
@@ -128,6 +129,37 @@ func (r *Runner) viaConvenienceConstructor(m mapping.IndexMapping, kind string, 
 		return nil, xs
 	}
 	return sk, nil
+}
+
+// exactFromData exercises NewDDSketchWithExactSummaryStatisticsFromData: refused when exactly one of
+// (sketch, statistics) is empty, accepted otherwise; returns the sketch built from an empty pair.
+func (r *Runner) exactFromData(m mapping.IndexMapping, kind string, n int) *ddsketch.DDSketchWithExactSummaryStatistics {
+	mk := func(fill bool) *ddsketch.DDSketch {
+		s := ddsketch.NewDDSketchFromStoreProvider(m, providerOf(kind, n))
+		if fill {
+			_ = s.Add(1)
+		}
+		return s
+	}
+	st := func(fill bool) *stat.SummaryStatistics {
+		if fill {
+			x, _ := stat.NewSummaryStatisticsFromData(1, 1, 1, 1)
+			return x
+		}
+		return stat.NewSummaryStatistics()
+	}
+	var out *ddsketch.DDSketchWithExactSummaryStatistics
+	for _, c := range [][2]bool{{false, false}, {true, true}, {true, false}, {false, true}} {
+		x, err := ddsketch.NewDDSketchWithExactSummaryStatisticsFromData(mk(c[0]), st(c[1]))
+		if (err != nil) != (c[0] != c[1]) || (err == nil && x == nil) {
+			r.oracleFail("constructor-decision", fmt.Sprintf("NewDDSketchWithExactSummaryStatisticsFromData(sketch filled=%v, statistics filled=%v): err=%v", c[0], c[1], err))
+		}
+		if !c[0] && !c[1] && err == nil {
+			out = x
+		}
+	}
+	r.stats["ctor:NewDDSketchWithExactSummaryStatisticsFromData"]++
+	return out
 }
 
 func providerOf(kind string, n int) store.Provider {
@@ -427,6 +459,12 @@ func (r *Runner) execSketch(cmd string, a []string) string {
 		// every other time, go through the library's convenience constructor for this configuration,
 		// when there is one that yields exactly this mapping
 		r.ctorMode++
+		if m != nil && isX && r.ctorMode%3 == 1 {
+			// …FromData: sketch and statistics must agree on emptiness; an empty pair gives a new sketch
+			if x := r.exactFromData(m, kind, n); x != nil {
+				e.exact = x
+			}
+		}
 		if m != nil && r.ctorMode%2 == 0 {
 			if p, x := r.viaConvenienceConstructor(m, kind, n, isX); p != nil || x != nil {
 				e.plain, e.exact = p, x
